@@ -378,4 +378,10 @@ def RepAtG (g : Bytes → Option Val) (m : Spec) (p : Bytes) : Prop :=
 /-- the db encodes the map `m` (for primary keys that do not contain the '-' separator). -/
 def Rep (db : TDB) (m : Spec) : Prop := ∀ p, NoSep p → RepAtG (get db) m p
 
+/-- every record of the db is a data record or an index record (holding the primary key) of a
+non-empty primary key without the separator — what `Save` writes. -/
+def Shape (db : TDB) : Prop :=
+  ∀ e ∈ db, (∃ p, e.1 = dataKey p) ∨
+    (∃ ix ∈ indexes, ∃ v p, NoSep p ∧ p ≠ [] ∧ e = (indexKey ix.1 v p, Val.pk p))
+
 end C10
